@@ -702,6 +702,184 @@ Definition ov_hooks_steps (h : N) (os : list (ovop * N * N)) : N := fold_left ov
 (* B has no [on] line of its own *)
 Definition ov_hooks_end (at_begin now : N) (bok : bool) : N := if bok then now else at_begin.
 
+
+(* ---------------------------------------------------------------- the packet-connection stage of startServers *)
+(* With the QUIC flag on (httpserver.QUIC, -quic) every server opens a TCP listener (Server.Listen) and THEN a UDP
+   socket on the same address (Server.ListenPacket); a listener / packet connection of the old instance bound to
+   the same address is inherited through a duplicated descriptor instead.  The attempt can fail at either stage:
+   [QTcpHeld] is a port whose TCP side somebody else holds (Listen fails), [QUdpHeld] a port whose UDP side somebody
+   else holds while its TCP side is free (Listen succeeds, ListenPacket fails: the failure point between the two).
+   The deferred clean-up closes the listener of the server being processed (ln), its packet connection (pc, nil when
+   ListenPacket failed) and then what was opened for the servers before it, newest first.
+   Descriptor tables: one entry per open descriptor, labelled with the address of its socket, newest first. *)
+Inductive qaddr := QEph (n : N) | QTcpHeld | QUdpHeld.
+Definition qaddr_eqb (a b : qaddr) : bool :=
+  match a, b with
+  | QEph x, QEph y => x =? y
+  | QTcpHeld, QTcpHeld => true
+  | QUdpHeld, QUdpHeld => true
+  | _, _ => false
+  end.
+Definition q_is_eph (a : qaddr) : bool := match a with QEph _ => true | _ => false end.
+(* [held]: the other process still holds its ports *)
+Definition q_listen (held : bool) (a : qaddr) : bool := match a with QTcpHeld => negb held | _ => true end.
+Definition q_listen_packet (held : bool) (a : qaddr) : bool := match a with QUdpHeld => negb held | _ => true end.
+
+Fixpoint q_close (a : qaddr) (l : list qaddr) : list qaddr :=
+  match l with
+  | [] => []
+  | x :: r => if qaddr_eqb x a then r else x :: q_close a r
+  end.
+Fixpoint q_close_all (acc l : list qaddr) : list qaddr :=
+  match acc with
+  | [] => l
+  | a :: r => q_close_all r (q_close a l)
+  end.
+
+(* the clean-up as it is (QcFull); with ln / pc re-declared inside the loop, so that the deferred function sees
+   nil for the server being processed (QcShadow, a seeded defect); with ListenPacket handing back a typed nil, so
+   that pc.Close() panics after ln.Close() and the servers before it are never reached (QcTypedNil, the code before
+   the fix a443b2e) *)
+Inductive qclean := QcFull | QcShadow | QcTypedNil.
+
+Fixpoint q_start_servers (k : qclean) (held : bool) (old addrs acc t u : list qaddr)
+  : bool * (list qaddr * list qaddr) :=
+  match addrs with
+  | [] => (true, (t, u))
+  | a :: r =>
+      if existsb (qaddr_eqb a) old || q_listen held a then
+        if existsb (qaddr_eqb a) old || q_listen_packet held a
+        then q_start_servers k held old r (a :: acc) (a :: t) (a :: u)
+        else match k with
+             | QcFull => (false, (q_close_all acc (q_close a (a :: t)), q_close_all acc u))
+             | QcShadow => (false, (q_close_all acc (a :: t), q_close_all acc u))
+             | QcTypedNil => (false, (q_close a (a :: t), u))
+             end
+      else (false, (q_close_all acc t, q_close_all acc u))
+  end.
+
+Record qstate := { q_insts : list (N * list qaddr); q_tcp : list qaddr; q_udp : list qaddr; q_hooks : N }.
+Definition q0 : qstate := {| q_insts := []; q_tcp := []; q_udp := []; q_hooks := 0 |}.
+Definition set_qhooks (st : qstate) (h : N) : qstate :=
+  {| q_insts := q_insts st; q_tcp := q_tcp st; q_udp := q_udp st; q_hooks := h |}.
+
+(* startWithListenerFds of a configuration whose directives all succeed ([on] hooks registered, taken out again
+   when the start fails) *)
+Definition q_start (k : qclean) (held : bool) (old addrs : list qaddr) (on : N) (st : qstate) : bool * qstate :=
+  match q_start_servers k held old addrs [] (q_tcp st) (q_udp st) with
+  | (true, (t, u)) => (true, {| q_insts := q_insts st; q_tcp := t; q_udp := u; q_hooks := q_hooks st + on |})
+  | (false, (t, u)) => (false, {| q_insts := q_insts st; q_tcp := t; q_udp := u; q_hooks := q_hooks st |})
+  end.
+
+(* Instance.Restart of instances[0]; on success the old instance is stopped: its servers close their listeners (the
+   UDP sockets of servers without TLS have no QUIC server that would close them: they stay open) *)
+Definition q_reload (k : qclean) (held : bool) (id : N) (addrs : list qaddr) (on : N) (st : qstate) : bool * qstate :=
+  match q_insts st with
+  | [] => (false, st)
+  | (_, oaddrs) :: rest =>
+      match q_start k held oaddrs addrs on st with
+      | (true, st1) => (true, {| q_insts := rest ++ [(id, addrs)]; q_tcp := q_close_all oaddrs (q_tcp st1);
+                                 q_udp := q_udp st1; q_hooks := q_hooks st1 |})
+      | (false, st1) => (false, st1)
+      end
+  end.
+
+Definition q_attempt_gen (k : qclean) (m : mode) (id : N) (addrs : list qaddr) (on : N) (held : bool) (st : qstate)
+  : bool * qstate :=
+  match m with
+  | Validate | Execute => (true, set_qhooks st (q_hooks st + on))
+  | Load =>
+      match q_start k held [] addrs on st with
+      | (true, st1) => (true, {| q_insts := q_insts st1 ++ [(id, addrs)]; q_tcp := q_tcp st1; q_udp := q_udp st1;
+                                 q_hooks := q_hooks st1 |})
+      | (false, st1) => (false, st1)
+      end
+  | Reload => q_reload k held id addrs on st
+  | Sigusr1 =>
+      match q_insts st with
+      | [] => (false, st)
+      | _ => match q_reload k held id addrs on (set_qhooks st 0) with
+             | (true, st1) => (true, st1)
+             | (false, st1) => (false, set_qhooks st1 (q_hooks st))
+             end
+      end
+  end.
+Definition q_attempt := q_attempt_gen QcFull.
+
+Inductive qop := QAttempt (m : mode) (id : N) (addrs : list qaddr) (on : N) | QRelease.
+
+(* a history; the results and the state after every step *)
+Fixpoint q_run (held : bool) (ops : list qop) (st : qstate) : list (bool * qstate) :=
+  match ops with
+  | [] => []
+  | QRelease :: r => (true, st) :: q_run false r st
+  | QAttempt m id addrs on :: r =>
+      let x := q_attempt m id addrs on held st in x :: q_run held r (snd x)
+  end.
+Fixpoint q_final (held : bool) (ops : list qop) (st : qstate) : bool * qstate :=
+  match ops with
+  | [] => (held, st)
+  | QRelease :: r => q_final false r st
+  | QAttempt m id addrs on :: r => q_final held r (snd (q_attempt m id addrs on held st))
+  end.
+(* every step of the history is an attempt that is refused *)
+Fixpoint q_all_refused (held : bool) (ops : list qop) (st : qstate) : Prop :=
+  match ops with
+  | [] => True
+  | QRelease :: _ => False
+  | QAttempt m id addrs on :: r =>
+      fst (q_attempt m id addrs on held st) = false /\ q_all_refused held r (snd (q_attempt m id addrs on held st))
+  end.
+
+(* what the harness observes after a step *)
+Record qobs := mkQObs { qo_res : N; qo_ids : list N; qo_sites : list (list N); qo_hooks : N;
+                        qo_tcp : list N; qo_tcpfds : N; qo_udp : list N; qo_udpfds : N }.
+
+Definition q_agree1 (x : bool * qstate) (o : qobs) : bool :=
+  Bool.eqb (fst x) (qo_res o =? 0) && lN_eqb (map fst (q_insts (snd x))) (qo_ids o)
+  && (q_hooks (snd x) =? qo_hooks o) && (N.of_nat (length (q_tcp (snd x))) =? qo_tcpfds o)
+  && (N.of_nat (length (q_udp (snd x))) =? qo_udpfds o).
+Fixpoint q_agree (xs : list (bool * qstate)) (os : list qobs) : bool :=
+  match xs, os with
+  | [], [] => true
+  | x :: xr, o :: or => q_agree1 x o && q_agree xr or
+  | _, _ => false
+  end.
+
+(* the property on the observations alone.  An attempt is valid when it never gets as far as binding (validation,
+   execution of the directives) or every address it binds is free; a valid one is accepted and an invalid one
+   REFUSED WITH AN ERROR (no panic, no crash, no hang); a refused attempt leaves the instance list, what every site
+   answers, the hooks, the LISTEN sockets, the UDP sockets and the number of descriptors of either kind exactly as
+   they were (nothing of the rejected configuration behind, inherited descriptors closed again); after every step
+   every instance serves its own configuration *)
+Definition qobs_same (a b : qobs) : bool :=
+  lN_eqb (qo_ids a) (qo_ids b) && llN_eqb (qo_sites a) (qo_sites b) && (qo_hooks a =? qo_hooks b)
+  && lN_eqb (qo_tcp a) (qo_tcp b) && (qo_tcpfds a =? qo_tcpfds b)
+  && lN_eqb (qo_udp a) (qo_udp b) && (qo_udpfds a =? qo_udpfds b).
+Fixpoint q_live (ids : list N) (sites : list (list N)) : bool :=
+  match ids, sites with
+  | [], [] => true
+  | i :: ir, s :: sr => negb (Nat.eqb (length s) 0) && forallb (N.eqb i) s && q_live ir sr
+  | _, _ => false
+  end.
+Definition q_dirs_only (m : mode) : bool := match m with Validate | Execute => true | _ => false end.
+Fixpoint q_spec (held : bool) (ops : list qop) (prev : qobs) (os : list qobs) : bool :=
+  match ops, os with
+  | [], [] => true
+  | QRelease :: r, o :: or => qobs_same prev o && q_spec false r o or
+  | QAttempt m id addrs on :: r, o :: or =>
+      let valid := q_dirs_only m || negb held || forallb q_is_eph addrs in
+      (if valid then qo_res o =? 0 else qo_res o =? 1)
+      && (if qo_res o =? 0 then true else qobs_same prev o)
+      && (if q_dirs_only m
+          then lN_eqb (qo_ids prev) (qo_ids o) && lN_eqb (qo_tcp prev) (qo_tcp o) && lN_eqb (qo_udp prev) (qo_udp o)
+               && (qo_tcpfds prev =? qo_tcpfds o) && (qo_udpfds prev =? qo_udpfds o)
+          else true)
+      && q_live (qo_ids o) (qo_sites o)
+      && q_spec held r o or
+  | _, _ => false
+  end.
+
 Inductive case :=
 | CHist (e0 : env) (h : list (op * bool)) (o0 : obs) (full ref : list obs) (fresh : list (option (N * (N * N))))
 (* overlapping attempts: the attempts before B with their results, B (load / reload of t; marker; 0 = it is a valid
@@ -711,7 +889,9 @@ Inductive case :=
    the markers of the sites that still answer, the listening sockets left, the length of the list *)
 | COverlap (pre : list (ovop * N * N)) (b : ovb) (bid fail : N) (inner : list (ovop * N * N)) (entered : bool) (bres : N)
            (ids1 ids2 ids3 : list N) (sites3 : list (list N)) (ids4 : list N) (sites4 : list (list N))
-           (still : list N) (socks_after ninst_after : N) (hooks1 hooks3 hooks4 : N).
+           (still : list N) (socks_after ninst_after : N) (hooks1 hooks3 hooks4 : N)
+(* a history in a process with the QUIC flag on: the steps, the observation before the first one and after each *)
+| CQuic (ops : list qop) (o0 : qobs) (os : list qobs).
 
 (* every entry but the one of the held attempt serves its own configuration; the held one has no server yet *)
 Fixpoint ov_live (held : option N) (ids : list N) (sites : list (list N)) : bool :=
@@ -764,6 +944,8 @@ Definition judge (c : case) : N :=
          meanwhile included *)
       verdict agree (ov_spec b bid fail pre inner entered bres ids3 sites3 ids4 sites4 still socks_after ninst_after
                      && (hooks4 =? hooks3))
+  | CQuic ops o0 os =>
+      verdict (q_agree1 (true, q0) o0 && q_agree (q_run true ops q0) os) (q_spec true ops o0 os)
   end.
 
 (* ---------------------------------------------------------------- vocabulary of the theorems *)
